@@ -1081,6 +1081,38 @@ def r3_shift_once(corpus: Corpus, rep: Report, tier: str):
     rt = corpus.func(RENDER_TOKENS)
     nrt = corpus.func(NESTED_RENDER)
     allowed = {rt.fq, nrt.fq}
+    g = get_callgraph(corpus)
+    BUILTIN_VIEW = {"len", "list", "tuple", "enumerate", "iter", "reversed", "sorted", "bool", "any", "all", "isinstance"}
+
+    def shift_impl(fi: FunctionInfo, depth: int = 0):
+        """Where the map stores of ``fi`` live: (body function, chain of (caller, call)) following private helpers."""
+        if _map_stores(fi):
+            return fi, []
+        if depth >= 2:
+            return None, []
+        cands = []
+        for call in [n for n in fi.local_nodes() if isinstance(n, ast.Call)]:
+            for t in g.resolve_call(call, fi):
+                if isinstance(t, FunctionInfo) and not t.is_lambda and t.fq not in (rt.fq, nrt.fq) and t.fq != fi.fq:
+                    body, chain = shift_impl(t, depth + 1)
+                    if body is not None and (t.fq, id(call)) not in {(c[0].fq, id(c[2])) for c in cands}:
+                        cands.append((t, body, call, chain))
+        if len(cands) != 1:
+            return None, [("ambiguous" if cands else "none", len(cands))]
+        t, body, call, chain = cands[0]
+        return body, [(fi, t, call)] + chain
+
+    impls = {}
+    for fi in (rt, nrt):
+        body, chain = shift_impl(fi)
+        impls[fi.fq] = (body, chain)
+        if body is not None:
+            for caller, helper, call in chain:
+                others = {c.fq for c, _ in _real_callers(corpus, helper)} - {caller.fq}
+                if others:
+                    rep.violation(R3, f"{helper.fq}|map-shifting helper has other callers", helper.site(), f"{helper.qualname} shifts token maps for {caller.name} but is also called from {sorted(others)}: those callers shift maps a further time")
+                else:
+                    allowed.add(helper.fq)
     # (a) closed list of writers
     for fi in _funcs(corpus):
         for st, tgt in _map_stores(fi):
@@ -1088,8 +1120,27 @@ def r3_shift_once(corpus: Corpus, rep: Report, tier: str):
                 continue
             k = f"{fi.fq}|writes .map|{short(st, 70)}"
             rep.violation(R3, k, fi.module.site(st), f"{fi.qualname} rewrites a token map (`{short(st, 60)}`): only _render_tokens and nested_render_text may shift maps, each once; any further writer shifts the line of every node built from the token")
-    # (b) shape of the two shifters
-    for fi, want, desc in ((rt, "1", "+1 (0-based -> 1-based)"), (nrt, None, "+lineno (absolute position of the nested text)")):
+    # (b) shape of the two shifters (the stores may live in a private helper called from the shifter)
+    for top, want, desc in ((rt, "1", "+1 (0-based -> 1-based)"), (nrt, None, "+lineno (absolute position of the nested text)")):
+        fi, chain = impls[top.fq]
+        if fi is None:
+            why = chain[0] if chain else ("none", 0)
+            if why[0] == "none":
+                rep.violation(R3, f"{top.fq}|number of map shifts", top.site(), f"{top.name} contains no map-shifting store (neither itself nor in a helper it calls), expected exactly one ({desc})")
+            else:
+                rep.error(R3, f"{top.name}: {why[1]} helpers with map stores are called; cannot tell which one is the shift")
+            continue
+        if want is None:
+            want = top.params[2] if len(top.params) > 2 else "lineno"
+            if LINE_SINKS.get(nrt.fq, (None, want))[1] != want:
+                rep.error(R3, f"nested_render_text's line parameter is `{want}`, the convention table says `{LINE_SINKS[nrt.fq][1]}`")
+            # rename through the helper chain: which helper parameter receives the line parameter?
+            for caller, helper, call in chain:
+                hit = [p for p in helper.params if (a := _arg_for(call, helper, p)) is not None and unparse(a) == want]
+                if len(hit) != 1:
+                    rep.error(R3, f"{caller.module.site(call)}: cannot see which parameter of {helper.name} receives `{want}`")
+                    hit = [want]
+                want = hit[0]
         stores = _map_stores(fi)
         shifting = []
         n_err = len(rep.errors)
@@ -1103,8 +1154,8 @@ def r3_shift_once(corpus: Corpus, rep: Report, tier: str):
                 # propagation to inline children: child.map = token.map inside a loop over token.children
                 v = st.value
                 loop = next((a for a in ancestors(st) if isinstance(a, ast.For) and isinstance(a.target, ast.Name) and a.target.id == tok), None)
-                if fi is rt and isinstance(v, ast.Attribute) and v.attr == "map" and isinstance(v.value, ast.Name) and loop is not None and unparse(loop.iter).startswith(f"{v.value.id}.children"):
-                    rep.ok(R3, f"{fi.fq}|inline children share the shifted map of their block token", fi.module.site(st))
+                if top is rt and isinstance(v, ast.Attribute) and v.attr == "map" and isinstance(v.value, ast.Name) and loop is not None and unparse(loop.iter).startswith(f"{v.value.id}.children"):
+                    rep.ok(R3, f"{top.fq}|inline children share the shifted map of their block token", fi.module.site(st))
                 else:
                     rep.error(R3, f"{fi.module.site(st)}: `{short(st, 60)}` is neither the two-element shift `[t.map[0] + k, t.map[1] + k]` nor the propagation to inline children; idiom not understood")
                 continue
@@ -1112,28 +1163,25 @@ def r3_shift_once(corpus: Corpus, rep: Report, tier: str):
         if len(rep.errors) > n_err:
             continue  # an idiom was not understood: already an ANALYSIS-ERROR, never a violation
         if len(shifting) != 1:
-            rep.violation(R3, f"{fi.fq}|number of map shifts", fi.site(), f"{fi.name} contains {len(shifting)} map-shifting stores, expected exactly one ({desc})")
+            rep.violation(R3, f"{top.fq}|number of map shifts", fi.site(), f"{fi.name} contains {len(shifting)} map-shifting stores, expected exactly one ({desc})")
             continue
         st, tok, (a0, a1) = shifting[0]
-        k = f"{fi.fq}|shift both ends by the same amount"
+        k = f"{top.fq}|shift both ends by the same amount"
         site = fi.module.site(st)
-        if want is None:
-            want = fi.params[2] if len(fi.params) > 2 else "lineno"
-            if LINE_SINKS.get(nrt.fq, (None, want))[1] != want:
-                rep.error(R3, f"nested_render_text's line parameter is `{want}`, the convention table says `{LINE_SINKS[nrt.fq][1]}`")
         if a0 != a1:
             rep.violation(R3, k, site, f"`{short(st.value, 60)}` shifts the first line by {a0} and the end line by {a1}")
         elif a0 != want:
             rep.violation(R3, k, site, f"`{short(st.value, 60)}` shifts by {a0}, expected {desc}")
         else:
-            rep.ok(R3, k, site, desc)
+            rep.ok(R3, k, site, desc + (f" (in helper {fi.name})" if fi is not top else ""))
         # the loop walks the token list that is rendered afterwards, and the only guard is the map itself
         loop = next((a for a in ancestors(st) if isinstance(a, ast.For) and isinstance(a.target, ast.Name) and a.target.id == tok), None)
         cfg = get_cfg(fi)
-        k = f"{fi.fq}|shift guarded by the token's own map only"
+        k = f"{top.fq}|shift guarded by the token's own map only"
         if loop is None:
             rep.error(R3, f"{site}: shift is not inside a loop over the tokens")
             continue
+
         def only_map(t: ast.expr) -> bool:
             names = {x.id for x in ast.walk(t) if isinstance(x, ast.Name)} - {"len", "bool"}
             attrs = {x.attr for x in ast.walk(t) if isinstance(x, ast.Attribute)}
@@ -1144,33 +1192,62 @@ def r3_shift_once(corpus: Corpus, rep: Report, tier: str):
             rep.violation(R3, k, site, f"the shift is skipped unless {' and '.join(foreign)}: tokens that fail the extra condition keep 0-based/unshifted maps")
         else:
             rep.ok(R3, k, site)
-        # exactly one completion of the shift loop before the tokens are rendered
-        if fi is rt:
-            render_stmts = [cfg.stmt_of(n) for n in fi.local_nodes() if isinstance(n, ast.Call) and isinstance(n.func, ast.Subscript) and "self.rules" in unparse(n.func)]
-        else:
-            render_stmts = [cfg.stmt_of(n) for n in fi.local_nodes() if isinstance(n, ast.Call) and unparse(n.func) == "self._render_tokens"]
-        if not render_stmts:
-            rep.error(R3, f"{fi.name}: no rendering call found after the shift loop")
+        # name of the token list in the top-level shifter
+        if not isinstance(loop.iter, ast.Name):
+            rep.error(R3, f"{fi.module.site(loop)}: the shift loop does not iterate over a plain name")
             continue
-        for rs in render_stmts[:1]:
+        list_name = loop.iter.id
+        for caller, helper, call in reversed(chain):
+            a = _arg_for(call, helper, list_name)
+            if not isinstance(a, ast.Name):
+                rep.error(R3, f"{caller.module.site(call)}: cannot see which list {helper.name} shifts")
+                list_name = None
+                break
+            list_name = a.id
+        if list_name is None:
+            continue
+        tcfg = get_cfg(top)
+        helper_call_stmt = tcfg.stmt_of(chain[0][2]) if chain else None
+        # hand-over points: the (shifted) list is passed on to something that reads the maps
+        hand = []
+        for n in top.local_nodes():
+            if isinstance(n, ast.Call) and (chain == [] or n is not chain[0][2]) and (dotted(n.func) or "") not in BUILTIN_VIEW:
+                if any(isinstance(a, ast.Name) and a.id == list_name for a in list(n.args) + [kw.value for kw in n.keywords]):
+                    hand.append(n)
+        if top is nrt:
+            hand = [n for n in hand if any(isinstance(t, FunctionInfo) and t.fq == rt.fq for t in g.resolve_call(n, top))]
+        if not hand and top is rt:
+            hand = [n for n in top.local_nodes() if isinstance(n, ast.Call) and isinstance(n.func, ast.Subscript) and "self.rules" in unparse(n.func)]
+        if not hand:
+            rep.error(R3, f"{top.name}: cannot find where the shifted token list `{list_name}` is handed on for rendering")
+            continue
+        hand.sort(key=lambda c: (c.lineno, c.col_offset))
+        rs = tcfg.stmt_of(hand[0])
+        k = f"{top.fq}|shift loop completes exactly once before rendering"
+        if chain:
+            inner = cfg.counts("ENTRY", ["EXIT"], lambda n, loop=loop: 1 if n == ("F", loop) else 0).get("EXIT", set())
+            for caller, helper, call in chain[1:]:
+                ccfg = get_cfg(caller)
+                cs = ccfg.stmt_of(call)
+                inner = inner if ccfg.counts("ENTRY", ["EXIT"], lambda n, cs=cs: 1 if n is cs else 0).get("EXIT", set()) == {1} else {0, 2}
+            outer = tcfg.counts("ENTRY", [rs], lambda n: 1 if n is helper_call_stmt else 0).get(rs, set())
+            cnt = {1} if (inner == {1} and outer == {1}) else (outer if outer != {1} else inner)
+        else:
             cnt = cfg.counts("ENTRY", [rs], lambda n, loop=loop: 1 if n == ("F", loop) else 0).get(rs, set())
-            k = f"{fi.fq}|shift loop completes exactly once before rendering"
-            if cnt == {1}:
-                rep.ok(R3, k, fi.module.site(loop))
-            else:
-                rep.violation(R3, k, fi.module.site(loop), f"on some path the map-shifting loop runs {sorted(cnt)} times before the tokens are rendered")
+        if cnt == {1}:
+            rep.ok(R3, k, fi.module.site(loop))
+        else:
+            rep.violation(R3, k, fi.module.site(loop), f"on some path the map-shifting loop runs {sorted(cnt)} times before the tokens are rendered")
         # the list shifted is the list rendered
-        if fi is nrt:
-            call = next(n for n in fi.local_nodes() if isinstance(n, ast.Call) and unparse(n.func) == "self._render_tokens")
-            k = f"{fi.fq}|the shifted list is the rendered list, freshly parsed"
-            it = unparse(loop.iter)
-            arg = unparse(call.args[0]) if call.args else "?"
-            fresh = [v for _, v, how in _defs(fi, it) if how == "assign"] if isinstance(loop.iter, ast.Name) else []
+        if top is nrt:
+            call = hand[0]
+            k = f"{top.fq}|the shifted list is the rendered list, freshly parsed"
+            fresh = [v for _, v, how in _defs(top, list_name) if how == "assign"]
             is_fresh = bool(fresh) and all(any(isinstance(c, ast.Call) and isinstance(c.func, ast.Attribute) and c.func.attr in ("parse", "parseInline") and "self.md" in unparse(c.func.value) for c in ast.walk(v)) for v in fresh)
-            if it == arg and is_fresh:
-                rep.ok(R3, k, fi.module.site(call), "tokens = self.md.parse*/parseInline(...)")
+            if is_fresh:
+                rep.ok(R3, k, top.module.site(call), "tokens = self.md.parse*/parseInline(...)")
             else:
-                rep.violation(R3, k, fi.module.site(call), f"nested_render_text shifts `{it}` but renders `{arg}`" + ("" if is_fresh else "; the list is not freshly produced by self.md.parse*, so tokens may be shifted twice"))
+                rep.violation(R3, k, top.module.site(call), f"nested_render_text renders `{list_name}`, which is not freshly produced by self.md.parse*, so tokens may be shifted twice")
     # (c) callers of _render_tokens
     callers = _real_callers(corpus, rt)
     names = sorted({c.fq for c, _ in callers})
